@@ -119,7 +119,7 @@ def canonical_field(K, D, shape):
 @register
 class FlowExpRepresentation:
     target = "deepali.data.flow:FlowFields.exp"
-    properties = ("C10",)
+    properties = ("C10", "C11")
     tol = 2e-4
 
     def cases(self, tier):
